@@ -65,11 +65,11 @@ CHECKS = {
  "C18": C("runtime monitoring: differential monitor (unsafe_ex vs standard evaluation) + explicit oracle, on the loop-insensitive fragment and on verified steady-state-free networks",
     "Exploration in two halves; steady-state freedom is verified by explicit enumeration per colour.",
     ORACLE_NOTE, "§2 C18"),
- "C19": C("runtime monitoring: the real converter binary as a child process; output parsed independently; per-variable function families compared by enumeration",
-    "Exploration over random .aeon networks including nested applications, expression arguments, shared symbols and names that look like generated constants; exit status and stderr observed.",
+ "C19": C("runtime monitoring: the real converter binary as a child process; output parsed independently; per-variable function families and the joint family over all variables compared by enumeration",
+    "Exploration over random .aeon networks including nested applications, expression and constant arguments, shared symbols and names that look like generated constants; exit status and stderr observed.",
     "Trusts the harness's 100-line expression parser and explicit truth-table enumeration (<= 5 variables, <= 16 constants).", "§2 C19"),
  "C20": C("runtime monitoring: differential monitor (coloured result restricted to a colour vs result on the network instantiated by the harness and on pick_witness), plus stricter-constraint variant",
-    "Exploration over parametrised random networks x up to 12 valid colours each; states compared one by one.",
+    "Exploration over parametrised random networks x up to 12 valid colours each (one case in three with an extended formula and colour-dependent context sets); states compared one by one; plus wide networks (2^64 colours, one colour pinned by a sub-formula), colour-restricted graphs and bundled models.",
     "The harness's instantiation (truth tables -> DNF) is independent of the library; " + META_NOTE, "§2 C20"),
 }
 NOT_APPLICABLE = {}
